@@ -772,7 +772,7 @@ func runC07(c *ev.ChildEnv, res *ev.Result) {
 	}
 	g := rand.New(rand.NewPCG(uint64(c.Seed), 700)) // same list in every child
 	cases := c07Cases(c.Tier, g)
-	reps := tierN(c.Tier, 8, 14)
+	reps := tierN(c.Tier, 8, 40)
 	if v := os.Getenv("VERIF_REPS"); v != "" {
 		fmt.Sscan(v, &reps)
 	}
